@@ -36,11 +36,18 @@
     "from then on every further cycle reproduces them"            write_read_fixpoint
     "both simulator flavours"                                     flavour_param_spec
     tie to the tables and dispatch of /repo                       all_records_wf, dispatch_as_modelled
+    "the whole model": read (write d) = canon d                    read_write_whole_partial (induction over the section list;
+                                                                 kinds ROCKS PARAM MOMOP START NOVER ELEME CONNE GENER LINEQ SOLVR
+                                                                 RPCAP TIMES SELEC INCON INDOM MULTI DIFFU FOFT GOFT COFT,
+                                                                 TOUGH2
+                                                                 flavour, in-file mesh), whole_sections_preserved,
+                                                                 write_read_write_whole_partial; field by field: whole_fields;
+                                                                 with an ASCII MESH file: read_write_whole_meshfile_partial
   Not proved as theorems (modelled and checked by the correspondence and the oracle only): the
-  composition of all section round trips into `read (write d) = canon d` for whole objects, the binary
-  MESHA/MESHB pair, and idempotence of `canonV` on reals (C02's domain).
+  composition into `read (write d) = canon d` for SIMUL, MESHM and SHORT, AUTOUGH2 objects and the
+  auxiliary files; the binary MESHA/MESHB pair; idempotence of `canonV` on reals (C02's domain).
 -/
-import PyTough.Proofs.T2DataTables
+import PyTough.Proofs.T2WholeMesh
 open Py Model Model.T2 Proofs Proofs.T2 Proofs.Incon
 open Gen.Sections (Rec)
 namespace Props.C01
@@ -418,6 +425,119 @@ theorem write_read_fixpoint {D F E : Type} (write : D → Except E F) (read : F 
     ∀ d2, read f2 = .ok d2 → write d2 = .ok f2 :=
   fixpoint_of_roundtrip write read canon hrt hidem d f1 f2 h1 h2
 
+/-! ### whole objects: the composition of the section round trips -/
+
+/-- the object `read()` returns for the file `write()` made of `d` (`d'` is `d` as `write()` leaves it, i.e. with
+    `_sections` updated): the fresh object with the title as written (cut to 80 columns), then section by section in
+    the order of `d'._sections` the canonical value of that section's round-trip theorem (`stepCanon`), each section
+    recorded in `_sections`, and the end keyword -/
+abbrev canonWhole (d d' : T2Data) : T2Data :=
+  { canonFrom (stepCanon d') d'.sections (startObj d) with endKeyword := d.endKeyword }
+
+/-- **read (write d) = canon d for whole objects** — by induction over the object's section list, composing the
+    per-section round trips through the keyword loop (each reader, started on its section's text followed by a
+    continuation that begins with a keyword line, returns its canonical value and leaves the continuation; PARAM
+    hands the keyword line it read ahead back to the loop; ENDCY/ENDFI stops it).
+    `_partial`: the object's sections are restricted to the kinds in `wholeKinds` (ROCKS PARAM MOMOP START NOVER
+    ELEME CONNE GENER LINEQ SOLVR RPCAP TIMES SELEC INCON INDOM MULTI DIFFU FOFT GOFT COFT — decidable, `hkinds`), to the TOUGH2 flavour without SIMUL (`hsim`), the mesh in the file
+    (`hcfg`) and no extra-precision companion (`hxp`).  `hgood` collects the side conditions of the per-section
+    theorems, each on the reader's object at the moment the section is met (so blocks are resolved against the
+    rock types *read*, connections against the blocks *read*).  COFT only while the reader has no
+    grid yet (its section theorem is for names, not resolved connections).  Missing: SIMUL (AUTOUGH2 objects), MESHM
+    (its keyword line is `MESHMAKER`, not the five-letter keyword), SHORT; the binary and extra-precision
+    auxiliary files. -/
+theorem read_write_whole_partial (d : T2Data) (cfg : WriteCfg) (d' : T2Data) (f : Files) (hw : d.write cfg = .ok (d', f))
+    (hsim : d.simulator = []) (hxp : d.extraPrecision = []) (hcfg : cfg.mesh = .infile) (hend : IsEnd d.endKeyword)
+    (hkinds : d'.sections.all (wholeKinds.contains ·) = true)
+    (hgood : GoodFrom (stepCanon d') (GoodStep d') d'.sections (startObj d)) :
+    T2Data.read .default f = .ok (canonWhole d d') :=
+  whole_read_write d (stepCanon d') (GoodStep d') (· ∈ wholeKinds) wholeKinds_sections hsim hxp hend cfg hcfg d' f hw
+    (fun kw d0 hk hx hg => step_ok d' kw d0 hk hx hg)
+    (fun kw hk => by simpa using (List.all_eq_true.mp hkinds) kw hk) hgood
+
+/-- … and what was read has "the same sections in the same order" as what was written, and the end keyword -/
+theorem whole_sections_preserved (d d' : T2Data) :
+    (canonWhole d d').sections = d'.sections ∧ (canonWhole d d').endKeyword = d.endKeyword :=
+  ⟨by simpa [startObj, T2Data.empty] using canonFrom_sections (stepCanon d') (stepCanon_sections d') d'.sections (startObj d), rfl⟩
+
+/-- the object `read()` returns for a main file and an ASCII MESH file written by `write()`: the sections of the
+    main file (all but ELEME / CONNE) as in `canonWhole`, then the blocks and connections of the MESH file, whose
+    two sections are recorded last -/
+abbrev canonWholeMesh (d d' : T2Data) : T2Data :=
+  { canonFrom (stepCanon d') (d'.sections.filter notMesh) (startObj d) with
+      blocks := canonBlocks d'.blocks, conns := canonConns d'.conns,
+      sections := (canonFrom (stepCanon d') (d'.sections.filter notMesh) (startObj d)).sections ++ [c!"ELEME", c!"CONNE"],
+      endKeyword := d.endKeyword }
+
+/-- **read (write d) = canon d with the mesh in an ASCII MESH file** (`write(filename, meshfilename)`): the main
+    file is read by the keyword loop as in `read_write_whole_partial` (sections other than ELEME / CONNE), then,
+    the object having no blocks yet, `read_meshfile` reads ELEME and CONNE from the MESH file — blocks resolved
+    against the rock types read from the main file, connections against the blocks read.  Same `_partial`
+    restrictions on kinds and flavour.  (`_sections` of the re-read object lists ELEME, CONNE last: they were read
+    last.) -/
+theorem read_write_whole_meshfile_partial (d : T2Data) (cfg : WriteCfg) (d' : T2Data) (f : Files)
+    (hw : d.write cfg = .ok (d', f))
+    (hsim : d.simulator = []) (hxp : d.extraPrecision = []) (hcfg : cfg.mesh = .ascii) (hend : IsEnd d.endKeyword)
+    (hkinds : (d'.sections.filter notMesh).all (wholeKinds.contains ·) = true)
+    (hgood : GoodFrom (stepCanon d') (GoodStep d') (d'.sections.filter notMesh) (startObj d))
+    (hb : ∀ b ∈ d'.blocks, GoodBlock (canonFrom (stepCanon d') (d'.sections.filter notMesh) (startObj d)).rocks b)
+    (hwb : ∀ b ∈ d'.blocks, ∃ l, writeBlock mainTabs b = .ok l)
+    (hc : ∀ c ∈ d'.conns, GoodConn (canonBlocks d'.blocks) c) (hwc : ∀ c ∈ d'.conns, ∃ l, writeConn mainTabs c = .ok l) :
+    f.mesh.isSome = true ∧ T2Data.read .default f = .ok (canonWholeMesh d d') := by
+  have hnob : (canonFrom (stepCanon d') (d'.sections.filter notMesh) (startObj d)).blocks = [] := by
+    have h := canonFrom_proj T2Data.blocks _ c!"ELEME" _ (fun _ _ => rfl) (stepCanon_blocks d')
+      (d'.sections.filter notMesh) (startObj d)
+    have hn : c!"ELEME" ∉ d'.sections.filter notMesh := by
+      intro hm
+      have := (List.mem_filter.mp hm).2
+      exact absurd this (by decide)
+    rw [if_neg hn] at h
+    exact h
+  refine ⟨?_, whole_read_write_ascii d (stepCanon d') (GoodStep d') (· ∈ wholeKinds) wholeKinds_sections hsim hxp hend cfg hcfg
+    d' f hw (fun kw d0 hk hx hg => step_ok d' kw d0 hk hx hg)
+    (fun kw hk => by simpa using (List.all_eq_true.mp hkinds) kw hk) hgood hnob hb hwb hc hwc⟩
+  obtain ⟨_, _, _, _, _, _, _, rfl⟩ := write_ascii d hsim hxp cfg hcfg d' f hw
+  rfl
+
+/-- **the whole model, field by field**: in the object read back, the title is the written one (cut to 80 columns);
+    the rock types, blocks, connections and generators are the canonical lists (each value as its field carries it,
+    names through the (A3,I2) cycle) of the written object's lists when their section was written, and empty
+    otherwise; the MOP options, default initial conditions and MOMOP options are the written ones. -/
+theorem whole_fields (d d' : T2Data) :
+    (canonWhole d d').title = canonTitle d ∧
+    (canonWhole d d').rocks = (if c!"ROCKS" ∈ d'.sections then canonRocks d'.rocks else []) ∧
+    (canonWhole d d').blocks = (if c!"ELEME" ∈ d'.sections then canonBlocks d'.blocks else []) ∧
+    (canonWhole d d').conns = (if c!"CONNE" ∈ d'.sections then canonConns d'.conns else []) ∧
+    (canonWhole d d').gens = (if c!"GENER" ∈ d'.sections then canonGeners d'.gens else []) ∧
+    (c!"PARAM" ∈ d'.sections → (canonWhole d d').option = d'.option ∧
+       (canonWhole d d').defaultIncons = d'.defaultIncons.map (canonV (mf c!"default_incons" 0))) ∧
+    (c!"MOMOP" ∈ d'.sections → (canonWhole d d').moreOption = d'.moreOption) := by
+  refine ⟨?_, ?_, ?_, ?_, ?_, ?_, ?_⟩
+  · exact canonFrom_keep T2Data.title _ (fun _ _ => rfl) (stepCanon_title d') d'.sections (startObj d)
+  · exact canonFrom_proj T2Data.rocks _ c!"ROCKS" _ (fun _ _ => rfl) (stepCanon_rocks d') d'.sections (startObj d)
+  · exact canonFrom_proj T2Data.blocks _ c!"ELEME" _ (fun _ _ => rfl) (stepCanon_blocks d') d'.sections (startObj d)
+  · exact canonFrom_proj T2Data.conns _ c!"CONNE" _ (fun _ _ => rfl) (stepCanon_conns d') d'.sections (startObj d)
+  · exact canonFrom_proj T2Data.gens _ c!"GENER" _ (fun _ _ => rfl) (stepCanon_gens d') d'.sections (startObj d)
+  · intro h
+    have h1 := canonFrom_proj T2Data.option _ c!"PARAM" _ (fun _ _ => rfl) (stepCanon_option d') d'.sections (startObj d)
+    have h2 := canonFrom_proj T2Data.defaultIncons _ c!"PARAM" _ (fun _ _ => rfl) (stepCanon_defaultIncons d') d'.sections (startObj d)
+    rw [if_pos h] at h1 h2
+    exact ⟨h1, h2⟩
+  · intro h
+    have h1 := canonFrom_proj T2Data.moreOption _ c!"MOMOP" _ (fun _ _ => rfl) (stepCanon_moreOption d') d'.sections (startObj d)
+    rw [if_pos h] at h1
+    exact h1
+
+/-- **the second write, for whole objects** (corollary): writing what was read from the first file is writing the
+    canonical object — `write (read (write d)) = write (canon d)`, with any arguments of the second `write` -/
+theorem write_read_write_whole_partial (d : T2Data) (cfg : WriteCfg) (d' : T2Data) (f : Files) (hw : d.write cfg = .ok (d', f))
+    (hsim : d.simulator = []) (hxp : d.extraPrecision = []) (hcfg : cfg.mesh = .infile) (hend : IsEnd d.endKeyword)
+    (hkinds : d'.sections.all (wholeKinds.contains ·) = true)
+    (hgood : GoodFrom (stepCanon d') (GoodStep d') d'.sections (startObj d)) (cfg2 : WriteCfg) :
+    (T2Data.read .default f).bind (fun d1 => d1.write cfg2) = (canonWhole d d').write cfg2 := by
+  rw [read_write_whole_partial d cfg d' f hw hsim hxp hcfg hend hkinds hgood]
+  rfl
+
 /-- reader and writer choose `param1` / `param1_autough2` and `multi` / `multi_autough2` by the same function
     of `simulator` -/
 theorem flavour_param_spec (T : Tabs) (d : T2Data) :
@@ -554,5 +674,81 @@ example : ChainOK .default none T2Data.empty [⟨c!"START", nl c!"START", []⟩]
   refine ⟨{ T2Data.empty with start := true }, ⟨by decide +kernel, by unfold IsEnd; decide, by decide +kernel, by decide +kernel, by decide, ?_⟩, rfl⟩
   intro line _ rest
   exact ⟨none, rest, rfl, Or.inl ⟨rfl, rfl⟩⟩
+
+-- a whole object for `read_write_whole_partial`: a rock type with NAD = 2, PARAM with nine time steps (two lines) and five
+-- default initial conditions (two lines, then the look-ahead into MOMOP), MOMOP, START, one block
+def exWhole : T2Data :=
+  { exParam with title := c!"whole object", rocks := [exRock2], start := true,
+                 moreOption := [0, 1, 0, 0, 0, 0, 0, 0, 0, 0, 2, 2, 2, 0, 0, 0, 5, 0, 0, 0, 1, 9],
+                 blocks := [exBlock] }
+def exCfg : WriteCfg := ⟨.infile, none, none⟩
+example : ∃ f, exWhole.write exCfg = .ok (exWhole.updateSections, f) := by
+  refine ⟨(match exWhole.write exCfg with | .ok x => x.2 | .error _ => ⟨[], none, none⟩), ?_⟩
+  decide +kernel
+example : exWhole.updateSections.sections = [c!"ROCKS", c!"PARAM", c!"MOMOP", c!"START", c!"ELEME", c!"CONNE"] ∧
+    exWhole.updateSections.sections.all (wholeKinds.contains ·) = true ∧ IsEnd exWhole.endKeyword := by
+  refine ⟨by decide +kernel, by decide +kernel, Or.inl (by decide +kernel)⟩
+theorem exWhole_good : GoodFrom (stepCanon exWhole.updateSections) (GoodStep exWhole.updateSections)
+    [c!"ROCKS", c!"PARAM", c!"MOMOP", c!"START", c!"ELEME", c!"CONNE"] (startObj exWhole) := by
+  refine ⟨?rocks, ?param, ?momop, ?start, ?eleme, ?conne, trivial⟩
+  case start => exact (rfl : exWhole.start = true)
+  case momop =>
+    refine ⟨⟨rfl, rfl, by decide⟩, (match writeMoreOptions mainTabs exWhole with | .ok l => l | .error _ => []), ?_⟩
+    decide +kernel
+  case conne => exact ⟨fun c hc => absurd hc (by simp [exWhole, exParam, T2Data.updateSections, T2Data.empty]), fun c hc => absurd hc (by simp [exWhole, exParam, T2Data.updateSections, T2Data.empty])⟩
+  case rocks =>
+    refine ⟨?_, ?_⟩
+    · intro rt hrt
+      have : rt = exRock2 := by simpa [exWhole, T2Data.updateSections] using hrt
+      subst this
+      exact { name := ⟨_, rfl, rfl, by decide, by decide +kernel⟩, nad := Or.inr ⟨2, rfl⟩, nadKeep := by decide +kernel, perm := rfl,
+              rp := fun _ => ⟨exRP, rfl, by decide⟩, cp := fun _ => ⟨exCP, rfl, by decide⟩ }
+    · intro rt hrt
+      have : rt = exRock2 := by simpa [exWhole, T2Data.updateSections] using hrt
+      subst this
+      refine ⟨(match writeRock mainTabs exRock2 with | .ok l => l | .error _ => []), ?_⟩
+      decide +kernel
+  case eleme =>
+    refine ⟨?_, ?_⟩
+    · intro b hb
+      have : b = exBlock := by simpa [exWhole, T2Data.updateSections] using hb
+      subst this
+      exact ⟨⟨rfl, by decide +kernel, by decide +kernel⟩, rfl, by decide, by decide +kernel, by intro c h; cases h; rfl⟩
+    · intro b hb
+      have : b = exBlock := by simpa [exWhole, T2Data.updateSections] using hb
+      subst this
+      refine ⟨(match writeBlock mainTabs exBlock with | .ok l => l | .error _ => []), ?_⟩
+      decide +kernel
+  case param =>
+    refine ⟨?_, ⟨(match writeParameters mainTabs exWhole with | .ok l => l | .error _ => []), by decide +kernel⟩, ?_⟩
+    · exact
+        { flavour := rfl, fresh := rfl, pbW := by decide +kernel,
+          mop := ⟨(match (paramAfter1 (pr1 exWhole) exWhole T2Data.empty).get c!"_option_str" with | some (.str s) => s | _ => []),
+                  by decide +kernel, by decide +kernel⟩,
+          pb := by decide +kernel,
+          ct := ⟨-2, by decide +kernel, by decide +kernel, fun _ => by decide +kernel⟩,
+          tsVals := by decide +kernel, diVals := by decide +kernel }
+    · intro dil hdil
+      have : dil = (match writeChunks (recOf mainTabs c!"default_incons") 4 exWhole.defaultIncons 5 2 with | .ok l => l | .error _ => []) := by
+        have h2 : (if exWhole.updateSections.defaultIncons.length > 0 then
+            writeChunks (recOf mainTabs c!"default_incons") 4 exWhole.updateSections.defaultIncons exWhole.updateSections.defaultIncons.length
+              ((exWhole.updateSections.defaultIncons.length + 3) / 4)
+          else .ok [nl []]) = .ok (match writeChunks (recOf mainTabs c!"default_incons") 4 exWhole.defaultIncons 5 2 with | .ok l => l | .error _ => []) := by
+          decide +kernel
+        rw [h2] at hdil
+        cases hdil
+        rfl
+      subst this
+      decide +kernel
+
+-- the same object written with an ASCII MESH file: the main file keeps ROCKS PARAM MOMOP START, the block goes to MESH
+example : (∃ f, exWhole.write ⟨.ascii, none, none⟩ = .ok (exWhole.updateSections, f)) ∧
+    exWhole.updateSections.sections.filter notMesh = [c!"ROCKS", c!"PARAM", c!"MOMOP", c!"START"] := by
+  refine ⟨⟨(match exWhole.write ⟨.ascii, none, none⟩ with | .ok x => x.2 | .error _ => ⟨[], none, none⟩), ?_⟩, ?_⟩ <;> decide +kernel
+example : GoodFrom (stepCanon exWhole.updateSections) (GoodStep exWhole.updateSections)
+      [c!"ROCKS", c!"PARAM", c!"MOMOP", c!"START"] (startObj exWhole) ∧
+    (∀ b ∈ exWhole.updateSections.blocks, GoodBlock (canonFrom (stepCanon exWhole.updateSections)
+      [c!"ROCKS", c!"PARAM", c!"MOMOP", c!"START"] (startObj exWhole)).rocks b) :=
+  ⟨⟨exWhole_good.1, exWhole_good.2.1, exWhole_good.2.2.1, exWhole_good.2.2.2.1, trivial⟩, exWhole_good.2.2.2.2.1.1⟩
 
 end Props.C01
